@@ -512,7 +512,7 @@ func ctxDeriveRule(w *World, r *Report, e *Engine, m *evalModel, rule string, on
 					case m.EVAL, m.evalAst, m.doFn, m.macroexpand, m.apply:
 						ctxArg, what = c.Args[0], sc.Name()
 					}
-					if sc.Name() == "NewFuture" || sc.Name() == "REPL" || sc.Name() == "_args_ctx" {
+					if sc.Name() == "NewFuture" || sc.Name() == "REPL" || sc == w.Fn("lib/call", "_args_ctx") {
 						if len(c.Args) > 0 && isContext(c.Args[0].Type()) {
 							ctxArg, what = c.Args[0], sc.Name()
 						}
